@@ -249,6 +249,7 @@ where
                     let rng = TestRng::from_seed(RngAlgorithm::ChaCha, &seed_bytes);
                     let mut runner = TestRunner::new_with_rng(config, rng);
                     let failed_here = std::cell::Cell::new(false);
+                    let first_seen: std::cell::RefCell<Option<(V, Violation)>> = std::cell::RefCell::new(None);
                     let shrink_start: std::cell::Cell<Option<Instant>> = std::cell::Cell::new(None);
                     let shrink_budget_s: u64 = std::env::var("VERIF_SHRINK_S").ok().and_then(|s| s.parse().ok()).unwrap_or(60);
                     let acc_cell = std::cell::RefCell::new(&mut acc);
@@ -319,6 +320,7 @@ where
                                 }
                                 failed_here.set(true);
                                 shrink_start.set(Some(Instant::now()));
+                                *first_seen.borrow_mut() = Some((v.clone(), viol.clone()));
                                 Err(TestCaseError::fail(viol.message))
                             }
                         }
@@ -329,9 +331,17 @@ where
                             TestError::Fail(_, v) => {
                                 // re-evaluate the shrunk value to get its own message
                                 let mut st = CaseStats::default();
-                                let viol = match f(&v, &mut st) {
-                                    Err(Fail::Violation(viol)) => viol,
-                                    _ => Violation { signature: "unstable".into(), message: "shrunk case did not fail again (non-deterministic)".into() },
+                                let (v, viol) = match f(&v, &mut st) {
+                                    Err(Fail::Violation(viol)) => (v, viol),
+                                    // schedule-dependent failure (real thread pools): the shrunk case passed this
+                                    // time; report the case and message that were actually observed failing
+                                    _ => match first_seen.borrow_mut().take() {
+                                        Some((v0, mut viol0)) => {
+                                            viol0.message = format!("{} [observed once; it depends on thread timing and did not reproduce on re-execution]", viol0.message);
+                                            (v0, viol0)
+                                        }
+                                        None => (v, Violation { signature: "unstable".into(), message: "shrunk case did not fail again (non-deterministic)".into() }),
+                                    },
                                 };
                                 let mut g = first_fail.lock().unwrap();
                                 if g.is_none() {
